@@ -4,7 +4,7 @@ import random
 
 from . import core, fatspec
 
-NAMES_83 = ["A.TXT", "README", "DATA.BIN", "X", "FILE1.DAT", "FILE2.DAT", "ABCDEFGH.XYZ", "NO_EXT", "A1B2C3D4.E5"]
+NAMES_83 = ["A.TXT", "A B.TXT", "MY DIR", "README", "DATA.BIN", "X", "FILE1.DAT", "FILE2.DAT", "ABCDEFGH.XYZ", "NO_EXT", "A1B2C3D4.E5"]
 NAMES_LONG = ["hello world.txt", "MixedCase.Txt", "lower.txt", "file.name.with.dots", "a long file name that needs slots.data",
               "thirteen_char", "fourteen_chars", "x" * 26, "y" * 27, "with+plus,comma;semi=eq[br].t", "UPPER CASE.TXT",
               "longfilename1.txt", "longfilename2.txt", "longfilename3.txt", "longfilename4.txt", "trailing.dot.x",
